@@ -127,8 +127,8 @@ class TargetMachine(Machine):
         return [(consulted, guarded, fresh, rew)] + viol
 
 
-def run(ctx):
-    chk = Check('C13', ctx)
+def run(ctx, host=None):
+    chk = host.sub('C13') if host is not None else Check('C13', ctx)
     prog, K, E = ctx.prog, ctx.kinds, ctx.effects
     R1 = chk.rule('C13.R1', 'pack files are opened for writing only by lock_pack, in append mode; written only through that handle', 2)
     R2 = chk.rule('C13.R2', 'target pack re-selected before every object with the handle\'s current position; different target => re-lock', 2)
